@@ -173,8 +173,8 @@ def _normalised(b, raw_syms):
     return None
 
 
-def rule_axis(prog, rep):
-    rep.rule("C08.axis", "an int axis parameter is normalised (range(n)[a], a % n, ...) before it is used as a "
+def rule_axis(prog, rep, R="C08.axis"):
+    rep.rule(R, "an int axis parameter is normalised (range(n)[a], a % n, ...) before it is used as a "
                          "tuple slice bound on a shape (Python's negative-index semantics differ from "
                          "jnp.stack/concatenate/vmap); the normalising modulus is the rank for an existing axis "
                          "and rank+1 for an inserted axis", minimum=3)
@@ -224,7 +224,7 @@ def rule_axis(prog, rep):
             rawuses = [(s, b) for s, b, cl in relevant if cl[0] == "raw"]
             if rawuses:
                 s, b = rawuses[0]
-                rep.violated("C08.axis", site, k,
+                rep.violated(R, site, k,
                              f"possibly-negative axis used un-normalised as a tuple slice bound ({show(s, 80)}): "
                              f"for a negative value the declared shape differs from the one jnp realises")
                 continue
@@ -245,7 +245,7 @@ def rule_axis(prog, rep):
                 if not is_len or delta != want:
                     okmod = False
                     detail = f"normalising modulus {show(m, 80)}, expected len(shape){'+1' if want else ''}"
-            rep.check(okmod, "C08.axis", site, k,
+            rep.check(okmod, R, site, k,
                       f"axis normalised before slicing ({'existing' if replace_sem else 'inserted'} axis)", detail)
 
 
